@@ -68,7 +68,7 @@ namespace RecInt
         rmint(const rint<K>& c) : Value( c.isNegative() ? (-c).Value : c.Value) {
             reduction(*this); if (c.isNegative()) neg(*this); }
         rmint(const rmint<K, MGI>& c) : Value(c.Value) { reduction(*this); }
-        rmint(const rmint<K, MGA>& c) : Value(c.Value) { reduction(*this); }
+        rmint(const rmint<K, MGA>& c) : Value(get_ruint(c)) { reduction(*this); }
         template <typename T, __RECINT_IS_UNSIGNED(T, int) = 0> rmint(const T b) : Value(b) { mod_n(Value, p); }
         template <typename T, __RECINT_IS_SIGNED(T, int) = 0>   rmint(const T b) : Value((b < 0)? -b : b)
         { mod_n(Value, p); if (b < 0) sub(Value, p, Value); }
